@@ -23,7 +23,7 @@ def fmtEv : Ev → String
   | .eq a b => s!"E{a},{b}"
 
 def fmtStatus : Status → String
-  | .success => "SUCCESS" | .exists_ => "EXISTS" | .notFound => "NOT_FOUND" | .noMem => "NO_MEM"
+  | .success => "SUCCESS" | .exists_ => "EXISTS" | .notFound => "NOT_FOUND" | .noMem => "NO_MEM" | .badArg => "BAD_ARG"
 
 def wb (t : Table) (evs : List Ev) : String :=
   s!" | n={t.n} count={t.count} [{" ".intercalate (t.slots.map fmtSlot)}] cb[{" ".intercalate (evs.map fmtEv)}]"
@@ -83,6 +83,15 @@ def step (s : St) (ws : List String) : St × String :=
       let s' := { s with t := t', failNext := false, blocks := e.1 }
       (s', s!"st={fmtStatus st} removed={optS r} size={t'.count}" ++ wb t' evs ++ fmtAs e.2)
     | _, _ => (s, "bad-op")
+  | ["eraseat", i] =>
+    -- zix_hash_erase at an arbitrary iterator value ("end" = the end iterator)
+    match (if i == "end" then some s.t.n else i.toNat?) with
+    | some i =>
+      let (t', st, r, evs) := eraseAt s.keyOf s.t i allocOk
+      let e := Zix.C08Hash.callEvents s.blocks (st == .noMem) (decide (t'.n ≠ s.t.n))
+      let s' := { s with t := t', failNext := false, blocks := e.1 }
+      (s', s!"st={fmtStatus st} removed={optS r} size={t'.count}" ++ wb t' evs ++ fmtAs e.2)
+    | none => (s, "bad-op")
   | ["iter"] => (s, s!"iter={(iterate s.t).map toString |> " ".intercalate} size={s.t.count}" ++ wb s.t [] ++ fmtAs [])
   | _ => (s, "bad-op")
 
